@@ -23,6 +23,20 @@ CHECKS = {
         'integer elements in a list; the exact window is pinned only for the '
         'start+size form as the statement says.',
         'DESIGN.md section 4, C11'),
+    'C09': (
+        'model_checking',
+        'exhaustive enumeration of conditional chains; output and ordered '
+        'call trace compared with a reference interpreter for every case',
+        'All if/elif/else chains up to 4 (quick) / 5 (thorough) conditions '
+        'over four condition kinds, every truth assignment, else/no else and '
+        'every re-reference form, plus unless and call, are rendered on the '
+        'real code; text and the ordered log of invoked namespace callables '
+        'must equal the trace predicted by the reference interpreter '
+        '(dtmc/refsem.py).',
+        'Trusted: the reference interpreter (written from the statement, '
+        'imports nothing from DocumentTemplate); logging callables are the '
+        'only observed side-effect channel.',
+        'DESIGN.md section 4, C09'),
 }
 
 NOT_YET = 'check not built yet in this revision of /verif (work in progress)'
